@@ -15,11 +15,11 @@ def obs_table(ctx):
 def histories(ctx):
     hs = []
     if ctx.tier == "quick":
-        plan = [("GraphStore_h2.cfg", None, None), ("GraphStore_sim.cfg", "num=40", 16)]
+        plan = [("GraphStore_h2.cfg", None, None), ("GraphLife_4.cfg", None, None), ("GraphStore_sim.cfg", "num=40", 16)]
     else:
-        plan = [("GraphStore_h3.cfg", None, None), ("GraphStore_sim.cfg", "num=400", 16)]
+        plan = [("GraphStore_h3.cfg", None, None), ("GraphLife_5.cfg", None, None), ("GraphStore_sim.cfg", "num=400", 16)]
     for cfg, sim, depth in plan:
-        res = ctx.tlc("store", "GraphStore", cfg, simulate=sim, depth=depth, timeout=1500, count=False, workers=8)
+        res = ctx.tlc("store", "GraphLife" if cfg.startswith("GraphLife") else "GraphStore", cfg, simulate=sim, depth=depth, timeout=1500, count=False, workers=8)
         hs += res.msgs.get("hist", [])
     seen, out = set(), []
     for h in hs:
